@@ -311,6 +311,13 @@ def classify_all(S, F):
   cells, rowdiff, structural = diffs(S, F)
   if structural or (not cells and not rowdiff):
     return []
+  # The same open finding without a CircularRefError on either side: every differing cell belongs to a formula
+  # column that reaches its own column through a lookup index (directly, or by a key column that reads it), where
+  # what a cell sees depends on which cells were dirty.
+  from vlib import invariants
+  loops = invariants.self_lookup_columns(S)
+  if cells and not rowdiff and all((d[0], d[1]) in loops for d in cells):
+    return ['cycle_detection_incremental_vs_scratch']
   need_cols = set((d[0], d[1]) for d in cells)
   need_tabs = set(rowdiff)
   used = []
